@@ -694,14 +694,21 @@ def make_names(mol, scheme):
 
 def write_mol2(mol, order, names, bondmode="sorted", resname="LIG"):
     pos = {cid: k for k, cid in enumerate(order)}
+    # the charge column of an ATOM record is optional in the format, and
+    # its values are input the assigned charges must not depend on
     lines = ["@<TRIPOS>MOLECULE", resname,
-             f"{mol.n:5d} {len(mol.bonds):5d}     1", "SMALL", "USER_CHARGES",
+             f"{mol.n:5d} {len(mol.bonds):5d}     1", "SMALL",
+             "NO_CHARGES" if bondmode == "nocharge" else "USER_CHARGES",
              "", "@<TRIPOS>ATOM"]
     for k, cid in enumerate(order):
         x, y, z = mol.coords[cid]
-        lines.append(f"{k + 1:7d} {names[cid]:<8s} {x:9.4f} {y:9.4f} "
-                     f"{z:9.4f} {mol.types[cid]:<6s} {1:3d} {resname:<4s} "
-                     f"{0.0:9.4f}")
+        line = (f"{k + 1:7d} {names[cid]:<8s} {x:9.4f} {y:9.4f} "
+                f"{z:9.4f} {mol.types[cid]:<6s} {1:3d} {resname:<4s}")
+        if bondmode == "usercharge":
+            line += f" {0.25 * ((k % 5) - 2):9.4f}"
+        elif bondmode != "nocharge":
+            line += f" {0.0:9.4f}"
+        lines.append(line)
     lines.append("@<TRIPOS>BOND")
     recs = []
     for i, j, l in mol.bonds:
@@ -1033,7 +1040,8 @@ def check_molecule(spec, rec, only=None, chunk=(0, 1), stride=1,
     c, k = chunk
     base_sorted = base  # identity order, reference names, sorted bond records
     if c == 0:
-        for bondmode in ("sorted", "reversed", "asis"):
+        for bondmode in ("sorted", "reversed", "asis", "nocharge",
+                         "usercharge"):
             if bondmode == base_mode:
                 continue
             got = run(ident, base_naming, bondmode)
